@@ -87,6 +87,9 @@ typedef struct ys_scan_opts
   size_t moddata_len;
   int yield_us;       /* callback sleeps this long (C09 perturbation) */
   int skip_set;       /* scanner: do not touch flags/timeout (history tests set them themselves) */
+  int fault_block;    /* YS_SCAN_BLOCKS: the data of this block (1-based) lies in a mapping of a file that
+                         has been truncated, so reading it raises SIGBUS inside the library; 0 = none */
+  int park_us;        /* YS_SCAN_BLOCKS: fetch_data sleeps this long before returning */
 } ys_scan_opts;
 
 /* scanner == NULL: yr_rules_scan_* ; otherwise yr_scanner_scan_*.  trace malloc'd. */
